@@ -167,8 +167,10 @@ func init() {
 				return ex.maybeError(st, "json.Unmarshal")
 			}
 		}
-		ex.unsupported("encoding/json.Unmarshal into a value that is not a *string (reflective struct decoding has no contract)")
-		return nil
+		// reflective struct/map decoding has no contract: everything reachable from the target is havocked
+		ex.cur.unmodelled["encoding/json.Unmarshal into a value that is not a *string (result havocked)"] = true
+		ex.havocReachable(st, args[1])
+		return ex.maybeError(st, "json.Unmarshal")
 	})
 
 	// ---- regexp ----
